@@ -308,3 +308,108 @@ func condClass(ifi *ssa.If) (string, bool) {
 	v, pos := condOf(ifi)
 	return strings.NewReplacer(";", ",", "=", "~").Replace(exprKey(v)), pos
 }
+
+// loadsFieldOfParam reports whether v reads field `name` of a struct
+// parameter, directly or through the parameter's spill slot (which may be
+// re-assigned on some paths).
+func loadsFieldOfParam(v ssa.Value, name string) bool {
+	switch x := v.(type) {
+	case *ssa.Field:
+		f := fieldOf(x.X.Type(), x.Field)
+		_, isP := x.X.(*ssa.Parameter)
+		return f != nil && f.Name() == name && isP
+	case *ssa.UnOp:
+		if x.Op != token.MUL {
+			return false
+		}
+		fa, ok := x.X.(*ssa.FieldAddr)
+		if !ok {
+			return false
+		}
+		f := fieldOf(fa.X.Type(), fa.Field)
+		if f == nil || f.Name() != name {
+			return false
+		}
+		al, ok := fa.X.(*ssa.Alloc)
+		if !ok {
+			return false
+		}
+		for _, ref := range *al.Referrers() {
+			if st, ok := ref.(*ssa.Store); ok && st.Addr == ssa.Value(al) {
+				if _, isP := st.Val.(*ssa.Parameter); isP {
+					return true
+				}
+			}
+		}
+	}
+	return false
+}
+
+// nilTestEdgesOn returns the edges taken when a value selected by pred
+// (applied to the compared operand) is nil (want=false) or non-nil (want=true).
+func nilTestEdgesOn(fn *ssa.Function, pred func(ssa.Value) bool, nonNil bool) []sx.Edge {
+	var out []sx.Edge
+	sx.AllInstrs(fn, func(_ sx.Node, in ssa.Instruction) {
+		ifi, ok := in.(*ssa.If)
+		if !ok {
+			return
+		}
+		v, pos := condOf(ifi)
+		b, ok := v.(*ssa.BinOp)
+		if !ok || (b.Op != token.NEQ && b.Op != token.EQL) {
+			return
+		}
+		x, y := b.X, b.Y
+		if c, ok := x.(*ssa.Const); ok && c.IsNil() {
+			x, y = y, x
+		}
+		c, ok := y.(*ssa.Const)
+		if !ok || !c.IsNil() || !pred(x) {
+			return
+		}
+		t, f := sx.CondEdges(ifi)
+		trueMeansNonNil := (b.Op == token.NEQ) == pos
+		if trueMeansNonNil == nonNil {
+			out = append(out, t)
+		} else {
+			out = append(out, f)
+		}
+	})
+	return out
+}
+
+// inPlaceLiteral: go/ssa may compile `x = T{…}` for an addressable x as a
+// store of the zero value followed by field stores into x itself. Given the
+// zero store, return the field stores that follow it in the same block.
+func inPlaceLiteral(zero *ssa.Store) (map[string]ssa.Value, bool) {
+	c, ok := zero.Val.(*ssa.Const)
+	if !ok || c.Value != nil {
+		return nil, false
+	}
+	al, ok := zero.Addr.(*ssa.Alloc)
+	if !ok {
+		return nil, false
+	}
+	fields := map[string]ssa.Value{}
+	after := false
+	for _, in := range zero.Block().Instrs {
+		if in == ssa.Instruction(zero) {
+			after = true
+			continue
+		}
+		if !after {
+			continue
+		}
+		st, ok := in.(*ssa.Store)
+		if !ok {
+			continue
+		}
+		if st.Addr == ssa.Value(al) {
+			break // next whole assignment
+		}
+		if fa, ok := st.Addr.(*ssa.FieldAddr); ok && fa.X == ssa.Value(al) {
+			fields[fieldOf(al.Type(), fa.Field).Name()] = st.Val
+		}
+	}
+	return fields, true
+}
